@@ -97,6 +97,10 @@ func regressions() []hist {
 		{Initial: "partial", Slow: "write", Stopped: "slow", Dial1: true, Steps: []string{"start", "pause2", "addpeer", "pause2", "stop", "pause2", "stats", "wait"}},
 		{Initial: "empty", Slow: "write", Stopped: "silent", Dial1: true, Steps: []string{"start", "addpeer", "pause2", "stop", "pause1", "stats", "wait", "start", "addpeer", "pause2", "verify", "wait"}},
 		{Initial: "partial", Slow: "none", Stopped: "ok", Dial1: true, Steps: []string{"start", "addpeer", "wait", "addpeer", "stop", "wait"}},
+		// a peer address that arrives while the torrent is Stopping (slow 'stopped' announce) must not leave a connected peer behind
+		{Initial: "partial", Slow: "none", Stopped: "slow", Steps: []string{"start", "wait", "stop", "pause1", "addpeer", "wait"}},
+		{Initial: "empty", Slow: "none", Stopped: "slow", Dial1: true, Steps: []string{"start", "pause2", "stop", "pause1", "addpeer", "pause2", "stats", "wait"}},
+		{Initial: "partial", Slow: "none", Stopped: "silent", Steps: []string{"start", "wait", "stop", "addpeer", "pause1", "addpeer", "wait"}},
 		// a piece write still in flight when the torrent is stopped and then verified (found by the C20 stress workload)
 		{Initial: "empty", Slow: "write", Stopped: "ok", Steps: []string{"start", "addpeer", "pause2", "stop", "pause1", "verify", "pause2", "wait"}},
 		{Initial: "empty", Slow: "write", Stopped: "ok", Dial1: true, Steps: []string{"start", "addpeer", "pause2", "stop", "pause1", "verify", "pause1", "start", "addpeer", "wait"}},
